@@ -68,6 +68,12 @@ def check_C18(ctx):
     for cl in ["-dsr", "-rsd", "-srd", "-ds", "-tt", "-dd"]:
         add([cl, "in.bcl"], "ok", "file", tag="cluster")
         add(["in.bcl", cl], "ok", "file", tag="cluster")
+    # a cluster of k letters followed by at least k further arguments, in every arrangement
+    for cl, rest in [("-dt", ["in.bcl", "-r"]), ("-dt", ["-r", "in.bcl"]), ("-rd", ["in.bcl", "-t"]), ("-rd", ["-t", "in.bcl"]),
+                     ("-ds", ["--bdump=out.bcb", "in.bcl"]), ("-dts", ["in.bcl", "-r", "-s"]), ("-sr", ["-d", "-t", "in.bcl"]),
+                     ("-dtr", ["-s", "--stats", "in.bcl", "--disasm"])]:
+        add([cl] + rest, "ok", "file", tag="cluster")
+        add([cl] + rest, "runtime_err", "file", tag="cluster")
     # usage errors
     for argv in [["-x"], ["--nosuch"], ["-dX"], ["a.bcl", "b.bcl"], ["--bdump"], ["--bdumpx"], ["--bload=x.bcb", "in.bcl"], ["-d-"],
                  ["--bdump", "-"], ["--", "-d"], ["-h"], ["-d", "-h", "-x"], ["--bload=", "in.bcl"], ["-é"], ["--disasm=1"], [""]]:
